@@ -79,6 +79,7 @@ type ObjectSpec struct {
 	Line     int
 	LockOf   string // alternative: lock lives in another object reachable by field path
 	Locals   bool   // object is the set of captured locals of a function (ccall)
+	Mode     string // "sequential": no interference at lock acquisition (properties over call histories)
 	Volatile []string
 }
 
@@ -307,6 +308,8 @@ func ParseSpecFile(path, pkgPath string, ps *PkgSpec) error {
 			curO.Lock = rest
 		case "locals":
 			curO.Locals = true
+		case "mode":
+			curO.Mode = rest
 		case "guarded", "atomic", "immutable", "volatile":
 			if curO == nil {
 				return fail(l.n, "%s outside object block", kw)
